@@ -57,7 +57,8 @@ def rand_ssc(rng):
         rng.shuffle(props)
     charts = []
     for _ in range(rng.choice([0, 1, 1, 2, 3])):
-        ch = [[k, G.stripped(rng)] for k in SIX[:5]] + [["NOTES", rng.choice(["0000\n0000", "1000"])]]
+        pad = (lambda v: rng.choice([" ", "\n", ""]) + v + rng.choice([" ", " \n", "\t"])) if rng.random() < 0.25 else (lambda v: v)      # an SSC chart keeps blanks around a value
+        ch = [[k, pad(G.stripped(rng))] for k in SIX[:5]] + [["NOTES", rng.choice(["0000\n0000", "1000", "\n0000\n0000\n"])]]
         for pt, keys in CH_INVALID.items():
             for key in keys:
                 if rng.random() < 0.18:
